@@ -52,14 +52,16 @@ class Run:
         self.crashes: list[str] = []
         self.known = [k for k in load_known() if k["property"] == prop and k["kind"] == "finding"]
         self.n_replay = 0
+        self.cov: dict[str, Any] = {}
+        self.assumptions: list[str] = []
+
+    def clear_old_replays(self) -> None:
         import glob
-        for old_file in glob.glob(os.path.join(HERE, "replays", f"{prop}_{tier}_*.json")):
+        for old_file in glob.glob(os.path.join(HERE, "replays", f"{self.prop}_{self.tier}_*.json")):
             try:
                 os.unlink(old_file)
             except OSError:
                 pass
-        self.cov: dict[str, Any] = {}
-        self.assumptions: list[str] = []
 
     def replay_path(self) -> str:
         self.n_replay += 1
@@ -251,6 +253,7 @@ def run(prop: str, tier: str, seed: int, repo: str, replay: str, enroll: bool) -
     r = Run(prop, tier, seed, repo)
     if replay:
         return do_replay(r, replay)
+    r.clear_old_replays()
     ded_all = []
     for sc in d.get("sidecars", []):
         res = deductive(r, sc, both=(tier == "thorough"), enroll=enroll)
